@@ -110,7 +110,7 @@ def run(rep, tier, seed, keep=False):
         rep.exhaustive = True
         ng = len(events)
         # ---- V
-        n = 2000 if quick else 40000
+        n = 2000 if quick else 150000
         for _ in range(n):
             k = rng.randint(4, 40)
             add(rng.choice(['', ' ', ' ', '']).join(rng.choice(TOKENS) for _ in range(k)))
